@@ -482,7 +482,28 @@ func (fr *Frame) callDynamic(fv Term, c *ssa.CallCommon, args []Term, st *State,
 					names[fmt.Sprintf("arg%d", i)] = tval{t: a, ty: sig.Params().At(i).Type()}
 				}
 			}
+			listedGhost := map[string]bool{}
+			for _, g := range ghostModifies(fr.contract.Modifies) {
+				listedGhost[g] = true
+			}
 			for _, cl := range cb.Invariants {
+				// `callback P assume G == EXPR` for a ghost G that this contract lists in modifies is a ghost assignment
+				// performed by this function just before it invokes the callback (it defines G for the callback)
+				if e := cl.E; e != nil && e.Op == "bin" && e.Name == "==" && len(e.Args) == 2 && e.Args[0].Op == "id" && listedGhost[e.Args[0].Name] {
+					if cur, ok := st.ghost[e.Args[0].Name]; ok {
+						ctx := fr.newEvalCtx(st, fr.entry, names)
+						if v, err := ctx.eval(e.Args[1]); err == nil && v.t.Sort == cur.Sort {
+							st = st.clone()
+							g2 := map[string]Term{}
+							for k, t := range st.ghost {
+								g2[k] = t
+							}
+							g2[e.Args[0].Name] = u.define("gset!"+e.Args[0].Name, v.t)
+							st.ghost = g2
+							continue
+						}
+					}
+				}
 				ctx := fr.newEvalCtx(st, fr.entry, names)
 				v, err := ctx.eval(cl.E)
 				if err != nil || v.t.Sort != SBool {
@@ -1540,6 +1561,22 @@ func (fr *Frame) checkCallSiteAsserts(c *ssa.CallCommon, args []Term, preFn Term
 			key = funcKey(callee.Fn.(*ssa.Function))
 		case *ssa.Builtin:
 			key = "builtin." + callee.Name()
+		case *ssa.UnOp:
+			// call through a local function variable (dbg := func..; dbg(..)): named after the variable
+			if callee.Op != token.MUL {
+				return
+			}
+			switch x := callee.X.(type) {
+			case *ssa.FreeVar:
+				key = "var." + x.Name()
+			case *ssa.Alloc:
+				if x.Comment == "" {
+					return
+				}
+				key = "var." + x.Comment
+			default:
+				return
+			}
 		default:
 			return
 		}
@@ -1551,7 +1588,7 @@ func (fr *Frame) checkCallSiteAsserts(c *ssa.CallCommon, args []Term, preFn Term
 	if post {
 		kind = "callsite-post"
 	}
-	for _, m := range maps {
+	for mi, m := range maps {
 		for _, name := range sortedKeys(m) {
 			if key != name && !strings.HasSuffix(key, "."+name) {
 				continue
@@ -1568,7 +1605,19 @@ func (fr *Frame) checkCallSiteAsserts(c *ssa.CallCommon, args []Term, preFn Term
 				}
 			}
 			for _, cl := range m[name] {
-				ctx := fr.newEvalCtx(st, fr.entry, names)
+				oldSt := fr.entry
+				fromRoot := false
+				if mi > 0 || fr.contract == nil || (post && len(fr.contract.CallSitesPost) == 0) || (!post && len(fr.contract.CallSites) == 0) {
+					// a clause of the root function's contract evaluated inside a closure: old(...) is the root's entry
+					for f := fr; f != nil; f = f.parent {
+						if f.isRoot {
+							oldSt = f.entry
+							fromRoot = f != fr
+						}
+					}
+				}
+				ctx := fr.newEvalCtx(st, oldSt, names)
+				ctx.oldFromRoot = fromRoot
 				v, err := ctx.eval(cl.E)
 				ck := fr.key + " callsite " + name + " " + cl.Text
 				if err != nil || v.t.Sort != SBool {
